@@ -45,7 +45,7 @@ func (c01) Describe() core.Info {
 
 func c01Opts(r *rand.Rand) gen.ProgOpts {
 	return gen.ProgOpts{Negation: true, Compare: true, Functions: r.Intn(2) == 0, Lists: r.Intn(3) == 0, Let: true, Do: false, Mix: r.Intn(3) == 0,
-		Wildcards: r.Intn(2) == 0, Shuffle: 15, FnInAtoms: true}
+		Wildcards: r.Intn(2) == 0, Shuffle: 15, FnInAtoms: true, MoreNegation: r.Intn(4) == 0}
 }
 
 func (c01) Gen(r *rand.Rand, tier string, i int) any {
